@@ -39,7 +39,11 @@ def interpolate_defaults(
         )
         _param["doc"] = doc
         if default is not None:
-            _param["default"] = unquote(default)
+            _param["default"] = (
+                cdd.shared.ast_utils.NoneStr
+                if isinstance(default, str) and default == "None"
+                else unquote(default)
+            )
     if require_default and _param.get("default") is None:
         # if (
         #     "typ" in _param
